@@ -56,7 +56,9 @@ pub fn any_duration(max_secs: u64) -> Duration {
 }
 /// Any Duration in whole milliseconds up to `max_ms`.
 pub fn any_millis(max_ms: u64) -> Duration {
-    let ms: u64 = kani::any();
-    kani::assume(ms <= max_ms);
-    Duration::new(ms / 1000, ((ms % 1000) as u32) * 1_000_000)
+    // whole milliseconds, built without division (symbolic 64-bit div/rem stalls the bit-blaster)
+    let secs: u64 = kani::any();
+    let ms: u32 = kani::any();
+    kani::assume(ms < 1000 && secs <= max_ms / 1000 && (secs < max_ms / 1000 || (ms as u64) <= max_ms % 1000));
+    Duration::new(secs, ms * 1_000_000)
 }
